@@ -46,9 +46,10 @@ var zzC10Profiles = [][3]int{
 }
 
 // zzC10Populate stores key k in kv through the store's public operations.
-//   lease recipe:    0 none, 1 Acquire, 2 Acquire then Release, 3 arbitrary token installed by Import (0 included)
-//   simple recipe:   0 none, 1 Put(one arbitrary byte), 2 Put then Delete, 3 Put(two bytes) overwritten by Put(one byte)
-//   children recipe: 0 none, 1 one child, 2 one child appended then removed, 3 two children
+//
+//	lease recipe:    0 none, 1 Acquire, 2 Acquire then Release, 3 arbitrary token installed by Import (0 included)
+//	simple recipe:   0 none, 1 Put(one arbitrary byte), 2 Put then Delete, 3 Put(two bytes) overwritten by Put(one byte)
+//	children recipe: 0 none, 1 one child, 2 one child appended then removed, 3 two children
 func zzC10Populate(kv *memory.MemoryKV, k *zzC10Key, sr, cr, lr int) {
 	ctx := context.Background()
 	// lease first: the imported-token recipe goes through Import, which also (re)sets the simple value
